@@ -174,6 +174,12 @@ MUTANTS = [
     ("rank_one_dtype_flip", "bempp_cl/api/assembly/discrete_boundary_operator.py", "        if row.dtype == \"complex128\" or column.dtype == \"complex128\":", "        if row.dtype == \"complex128\" and column.dtype == \"complex128\":", 0, ["C14"]),
     ("potential_compat_points_plus", "bempp_cl/api/assembly/potential_operator.py", "np.linalg.norm(self.evaluation_points - other.evaluation_points, ord=np.inf) == 0", "np.linalg.norm(self.evaluation_points + other.evaluation_points, ord=np.inf) == 0", 0, ["C14"]),
     ("potential_compat_count_ne", "bempp_cl/api/assembly/potential_operator.py", "            self.component_count == other.component_count", "            self.component_count != other.component_count", 0, ["C14"]),
+    ("is_compatible_negated", "bempp_cl/api/space/space.py", "        return self == other", "        return self != other", 0, ["C14"]),
+    ("compat_ids_negated", "bempp_cl/api/space/space.py", "    if space1.id == space2.id:", "    if space1.id != space2.id:", 0, ["C14"]),
+    ("dof_count_minus", "bempp_cl/api/space/space.py", "    global_dof_count = 1 + _np.max(local2global_map)", "    global_dof_count = 1 - _np.max(local2global_map)", 0, ["C09"]),
+    ("grid_dof_count_no_plus_one", "bempp_cl/api/space/space.py", "        number_of_grid_dofs = 1 + _np.max(self._local2global_map)", "        number_of_grid_dofs = _np.max(self._local2global_map)", 0, ["C09"]),
+    ("colour_map_positive_sentinel", "bempp_cl/api/space/space.py", "self._color_map = -_np.ones(self.grid.number_of_elements, dtype=_np.int32)", "self._color_map = _np.ones(self.grid.number_of_elements, dtype=_np.int32)", 0, ["C16"]),
+    ("sparse_grid_guard_eq", "bempp_cl/core/sparse_assembler.py", "        if domain.grid != dual_to_range.grid:", "        if domain.grid == dual_to_range.grid:", 0, ["C13"]),
     ("hyp_guard_trial_dropped", "bempp_cl/api/operators/boundary/laplace.py", "    if dual_to_range.shapeset.identifier != \"p1_discontinuous\":", "    if domain.shapeset.identifier != \"p1_discontinuous\":", 0, ["C06"]),
     ("efield_guard_accepts_bc", "bempp_cl/api/operators/boundary/maxwell.py", "    if domain.identifier != \"rwg0\":", "    if domain.identifier not in (\"rwg0\", \"snc0\"):", 0, ["C06"]),
     ("maxwell_pot_guard_removed", "bempp_cl/api/operators/potential/maxwell.py", "    if space.identifier != \"rwg0\":", "    if space is None:", 1, ["C08"]),
